@@ -23,7 +23,7 @@ class Undoc(Exception):
 
 def win_tokens(prog):
     out = []
-    for t in prog.split(" "):
+    for t in re.split(r"[ \t\n\x0c\r]+", prog):       # split_ascii_whitespace
         if t == "":
             continue
         if t.startswith("=") and len(t) > 1:
@@ -436,12 +436,28 @@ class C07(PropBase):
                 addA(100, gcps, True, regs, 0, img0, [W("4", 100, 16, 8, sv, lo, "1", "$eip .raSearch ^ = $esp .raSearch 4 + = $esi $ebx =")])
                 addA(100, gcps, True, regs, 0, img0, [W("4", 100, 16, 8, sv, lo, "1", "$eip $ebp 4 @ ^ = $esp .raSearchStart =")])
                 dist["wide_regs"] += 2
+        # the `@` rule is a property of the program TEXT ("whether the program includes an `@`"): an align operator glued to a
+        # preceding `=` (`=@`, the same program as `= @` by the `=tok` rule), a `$`/`.` name that merely contains the character,
+        # alone and combined, before and after statements whose result depends on .raSearch / .raSearchStart, with
+        # $ebp + 4 != $esp + frame_size and every word of the image distinct
+        carriers = ["$T@ 1 =", "$T1 $esp 16 $T0 1 =@ =", ".x@y 2 =", "$T1 5 =@", "$T1 $esp 16 @ =", "$T1 $esp =16 $T2 $T1 =4 =@ ="]
+        bases = ["$eip .raSearch ^ = $esp .raSearch 4 + =", "$eip .raSearchStart ^ = $esp .raSearchStart 4 + =",
+                 "$eip .raSearch = $esp .raSearchStart =", "$T0 .raSearch = $eip $T0 ^ = $esp $T0 4 + = $ebp $T0 4 - ^ ="]
+        imgw = words(ESP - 16, 24).hex()
+        for ca in carriers:
+            for ba in bases:
+                for prog in (ca + " " + ba, ba + " " + ca, ba + "  " + ca.replace(" ", "\t")):
+                    for sv, lo, gcps in ((0, 0, 0), (4, 0, 0), (4, 12, 4), (8, 4, 4), (0, 8, 0)):
+                        regs = "esp=%d,ebp=%d,ebx=9,eip=77" % (ESP, ESP + 16 + 4 * (sv // 4))
+                        addA(100, gcps, True, regs, ESP - 16, imgw, [W("4", 100, 16, 8, sv, lo, "1", prog)])
+                        dist["at_rule_text"] = dist.get("at_rule_text", 0) + 1
         # random longer programs
         stmts = ["$T0 $ebp =", "$eip $T0 4 + ^ =", "$ebp $T0 ^ =", "$esp $T0 8 + =", "$T0 .raSearchStart =", "$eip $T0 ^ =",
                  "$esp $T0 4 + =", "$ebx $T2 4 - ^ =", "$T2 $esp .cbSavedRegs + =", "$esi .undef =", "$edi 7 =", "$ebp .undef =",
                  "$T0 $esp 16 @ =", "$eip .undef =", "$T1 $T0 $T0 * =", "$eax 5 =", "$esp $esp 4294967295 + =", "$edi -2147483648 =",
                  "$T0 2147483648 =", "$esi 4294967295 =", "$edi 4294967296 1 + =", "$esi -2147483649 =", "$edi 9223372036854775807 =",
-                 "$esi 9223372036854775808 =", "$edi -9223372036854775808 =", "T0 5 =", "$esi .raSearch =", "$edi .raSearchStart =", "$esi .raSearchStart .raSearch - =", "$T0 =4", "$eip =$T0", "= =", "$T3 1 0 / =", "$T3 7 0 % =", "$T3 7 3 @ =", "$esi $nosuch ="]
+                 "$esi 9223372036854775808 =", "$edi -9223372036854775808 =", "T0 5 =", "$esi .raSearch =", "$edi .raSearchStart =", "$esi .raSearchStart .raSearch - =", "$T0 =4", "$eip =$T0", "= =", "$T3 1 0 / =", "$T3 7 0 % =", "$T3 7 3 @ =", "$esi $nosuch =",
+                 "$T@ 1 =", "$T1 $esp 16 $T0 1 =@ =", ".x@y 2 ="]
         nrand = 5000 if tier == "quick" else 50000
         for _ in range(nrand):
             n = rng.range(1, 7)
@@ -499,6 +515,14 @@ class C07(PropBase):
                     cases.append("|".join(["B", ctxs[0], valid, str(ESP - 16), bytes(img).hex(), W("0", 100, 16, 8, sv, lo, "0", abp)]))
                     dist["by_kind"]["B"] += 1
                     dist["real_walker"] += 1
+        # the `@` rule through the real walker: glued `=@` / a name containing `@`, with .raSearch-dependent statements
+        for ca in ("$T@ 1 =", "$T1 $esp 16 $T0 1 =@ =", ".x@y 2 ="):
+            for ba in ("$eip .raSearch ^ = $esp .raSearch 4 + =", "$eip .raSearchStart ^ = $esp .raSearchStart 4 + ="):
+                for prog in (ca + " " + ba, ba + " " + ca):
+                    for sv in (0, 4):
+                        cases.append("|".join(["B", ctxs[0], valids[0], str(ESP), stackB, W("4", 100, 16, 8, sv, 0, "1", prog)]))
+                        dist["by_kind"]["B"] += 1
+                        dist["real_walker"] += 1
         # runs of the callee's eip above the frame, through the real walker from a context frame (exactly one word is skipped)
         for sv, lo in itertools.product([0, 4, 8], [0, 4]):
             for run in (2, 3):
